@@ -19,6 +19,7 @@ export GOCACHE=/verif/.cache/go-build
 for d in $(ls seeded | grep -E '^C[0-9]+-[a-z]$' | grep -E -- "$RE"); do
   props=$(echo $d | cut -d- -f1)
   [ "$d" = "C04-b" ] && props="C04 C10"
+  [ "$d" = "C01-v" ] && props="C01 C10"
   (cd $W && git checkout -q -- . && git apply /verif/seeded/$d/patch.diff) || { grep -v "^$d	" seeded/RESULTS.tsv > seeded/RESULTS.tmp; echo "$d	APPLY-FAILED" >> seeded/RESULTS.tmp; mv seeded/RESULTS.tmp seeded/RESULTS.tsv; continue; }
   base=$(/verif/bin/baseline.sh $W | head -1)
   grep -v "^$d	" seeded/RESULTS.tsv > seeded/RESULTS.tmp
